@@ -448,9 +448,13 @@ Section B.
     forall w1 tbl pack, init_dir T w = Ok (w1, tbl) -> get_nodes T w1 RULES_PATH goal = Ok pack ->
                         Forall node_confined (p_nodes pack).
 
+  (* the user's mv is excluded: two files written in one tick of the coarse clock carry the same time, and
+     exchanging them makes the table entry of the destination match the wrong file (refuted for mv in
+     C18CoarseFacts.coarse_inv_mv_refuted); C18 speaks of ruler moving files, not the user *)
   Definition op_confined (w : world) (o : op T) : Prop :=
     match o with
     | OBuild goal => build_confined w goal
+    | OMove _ _ => False
     | _ => True
     end.
 
@@ -458,7 +462,8 @@ Section B.
     coarse_inv w -> safe_op T o -> op_confined w o -> coarse_inv (fst (apply_op teqb hc hl hr w o)).
   Proof.
     intros Hinv Hsafe Hconf. pose proof (coarse_inv_inflight T teqb hc w Hinv) as [_ Hfl].
-    destruct o as [p c | p | p x | t | | | | | t | v | t v | goal | goal];
+    destruct o as [p c | p | p x | p q | t | | | | | t | v | t v | goal | goal];
+      [| | | destruct Hconf | | | | | | | | | |];
       cbn [apply_op fst]; unfold upd_rd; apply tick_coarse.
     - apply (adv_pre_inv w); [exact Hinv | apply (write_file_adv T teqb hc teqb_spec) | apply (w_rd_write_file T)|].
       apply (write_file_files_le T teqb hc teqb_spec). exact Hfl.
